@@ -834,6 +834,14 @@ def run_hammer_stream(prop, stream, tier, seed, workdir, scale=1):
             continue
         for line in p.stdout.splitlines():
             f = line.split("|")
+            if f[0] == "HP":
+                try:
+                    pmsg = bytes.fromhex(f[4]).decode("utf8", "replace")
+                except Exception:
+                    pmsg = f[4]
+                verdicts.append({"kind": "MON", "id": "C16", "episode": 0, "step": 0, "raw": [f"# hammer {seed + r} {threads} {rounds}", line],
+                                 "text": f"MON C16 :: a thread panicked in phase '{f[3]}' on cache {f[2]} under free-running concurrent use: {pmsg[:300]}"})
+                continue
             if f[0] == "HM":
                 calls, m, over, worst, incons = int(f[3]), int(f[4]), int(f[5]), int(f[6]), int(f[7])
                 acc["steps"] += calls
